@@ -3,6 +3,7 @@ package main
 import (
 	"fmt"
 	"github.com/cybergarage/go-redis/redis"
+	"math"
 	"strconv"
 	"strings"
 	"time"
@@ -239,7 +240,8 @@ func genC12(tier string, seed uint64, emit func(string)) {
 		}
 		return score < v || (!ex && score == v)
 	}
-	limits := [][2]int{{0, -2}, {0, 1}, {1, 2}, {0, -1}, {2, 5}, {-1, 2}, {1, 0}}
+	limits := [][2]int{{0, -2}, {0, 1}, {1, 2}, {0, -1}, {2, 5}, {-1, 2}, {1, 0},
+		{1, math.MaxInt64}, {2, math.MaxInt64 - 1}, {0, math.MaxInt64}, {3, math.MaxInt64 - 2}, {math.MaxInt64, 1}, {math.MaxInt64, math.MaxInt64}, {1, math.MinInt64}}
 	for _, mx := range bounds {
 		for _, mn := range bounds {
 			for _, ws := range []bool{false, true} {
